@@ -20,6 +20,16 @@ class InjectedCrash(BaseException):
     """Process death injected after a bucket mutation (BaseException: nothing in the library may swallow it)."""
 
 
+def service_error(op='PutObject'):
+    """What boto3 raises when the service refuses a request (throttling / 5xx); nothing was written."""
+    try:
+        from botocore.exceptions import ClientError
+        return ClientError({'Error': {'Code': 'SlowDown', 'Message': 'injected: please reduce your request rate'},
+                            'ResponseMetadata': {'HTTPStatusCode': 503}}, op)
+    except ImportError:  # pragma: no cover
+        return IOError('injected service error on %s' % op)
+
+
 class BucketStore(object):
     def __init__(self):
         self.objects = {}  # key -> (body bytes, last_modified, kwargs)
@@ -29,6 +39,7 @@ class BucketStore(object):
         self.crash_after = None  # crash after this many further mutations
         self.owner = None  # tag of the cassette currently calling (set by the harness)
         self.gate = None  # optional callable(op, key) invoked *before* every mutation (may block: interleavings)
+        self.after = None  # optional callable(op, key) invoked right *after* every mutation (intermediate-point oracles)
 
     def clock(self):
         n = self.now if self.now is not None else datetime.datetime.utcnow()
@@ -36,6 +47,8 @@ class BucketStore(object):
 
     def _mutated(self, op, key):
         self.mutations.append((op, key, self.owner))
+        if self.after is not None:
+            self.after(op, key)
         if self.crash_after is not None:
             self.crash_after -= 1
             if self.crash_after <= 0:
